@@ -157,9 +157,11 @@ def check_case(case, acc):
     ga = dict(x=ax, y=ay, z=za, yaw=case["ya"], size=list(sa), uuid="g", label="CAR")
     eb = dict(x=bx, y=by, z=zb, yaw=byaw, size=list(sbb), uuid="e", label="CAR", score=0.9)
     g, e = G.mk3d(ga), G.mk3d(eb)
-    acc.exec(8)
+    acc.exec(12)
     cd, pd, i2, i3 = _scores(e, g)
     rcd, rpd, ri2, ri3 = _scores(g, e)
+    if _scores(e, g) != (cd, pd, i2, i3):
+        bad("not-deterministic", "scoring the same pair twice gives different values")
     acc.compared()
     A = (ax, ay, case["ya"], sa[0], sa[1])
     B = (bx, by, byaw, sbb[0], sbb[1])
